@@ -118,6 +118,9 @@ async fn start_node(world: &WorldRef, id: u32) {
     let Some(mut node) = taken else { return };
     if !node.is_up() {
         node.start().await;
+        if node.inc_counter > 1 {
+            check_membership_after_restart(world, &node).await;
+        }
         if let Some(cur) = &node.cur {
             let w = world.borrow();
             w.registry
@@ -140,6 +143,84 @@ async fn start_node(world: &WorldRef, id: u32) {
         }
     }
     world.borrow_mut().nodes.insert(id, Some(node));
+}
+
+/// C28: right after a restart the node's membership view must equal its initial configuration plus every
+/// committed membership change at or below its applied index (fold over the commit ledger).
+async fn check_membership_after_restart(world: &WorldRef, node: &SimNode) {
+    use d_engine_proto::common::membership_change::Change;
+    use d_engine_proto::common::entry_payload::Payload;
+    let Some(cur) = &node.cur else { return };
+    let applied = node.sm_img.lock().unwrap().last_applied.0;
+    let (oracle, ledger) = {
+        let w = world.borrow();
+        (w.oracle.clone(), w.ledger.clone())
+    };
+    // the node's view first (no borrow of the world or lock is held across the await)
+    let members = cur.membership.members().await;
+    let led = ledger.lock().unwrap();
+    // initial configuration of this node
+    let mut model: BTreeMap<u32, bool> = BTreeMap::new(); // id -> is_learner
+    for m in cur.cfg.cluster.initial_cluster.iter() {
+        model.insert(m.id, m.role == d_engine_proto::common::NodeRole::Learner as i32);
+    }
+    let initial = model.clone();
+    let mut n_changes = 0;
+    for i in 1..=applied {
+        let Some(le) = led.by_index.get(&i) else {
+            // ledger incomplete (entries compacted before any node reported them): cannot judge
+            oracle.lock().unwrap().probe("c28_not_checked_ledger_incomplete");
+            return;
+        };
+        if let Some(Payload::Config(mc)) = le.entry.payload.as_ref().and_then(|p| p.payload.clone()) {
+            n_changes += 1;
+            match mc.change {
+                Some(Change::AddNode(a)) => {
+                    model.insert(a.node_id, true);
+                }
+                Some(Change::RemoveNode(r)) => {
+                    model.remove(&r.node_id);
+                }
+                Some(Change::Promote(p)) => {
+                    if let Some(x) = model.get_mut(&p.node_id) {
+                        *x = false;
+                    }
+                }
+                Some(Change::BatchPromote(bp)) => {
+                    for id in bp.node_ids {
+                        if let Some(x) = model.get_mut(&id) {
+                            *x = false;
+                        }
+                    }
+                }
+                Some(Change::BatchRemove(br)) => {
+                    for id in br.node_ids {
+                        model.remove(&id);
+                    }
+                }
+                None => {}
+            }
+        }
+    }
+    let mut got: BTreeMap<u32, bool> = BTreeMap::new();
+    for m in members.iter() {
+        got.insert(m.id, m.role == d_engine_proto::common::NodeRole::Learner as i32);
+    }
+    let mut o = oracle.lock().unwrap();
+    o.probe("c28_restart_checked");
+    if n_changes > 0 {
+        o.probe("c28_restart_after_applied_membership_change");
+    }
+    if got != model {
+        let fmt = |m: &BTreeMap<u32, bool>| m.iter().map(|(k, l)| format!("{}{}", k, if *l { "L" } else { "V" })).collect::<Vec<_>>();
+        o.violate(
+            "C28",
+            "membership_regressed_after_restart",
+            json!({"node": node.id, "expected": fmt(&model), "got": fmt(&got), "applied_index": applied,
+                   "membership_changes_applied": n_changes, "restart_kind": node.last_down_kind,
+                   "equals_initial_config": got == initial}),
+        );
+    }
 }
 
 async fn stop_node(world: &WorldRef, id: u32, how: u8, choice: u64) {
